@@ -48,6 +48,79 @@ static std::string show_entries(const trace_api::TraceState &ts)
   return s + "]";
 }
 
+// "the same trace id, span id, flags byte": every accessor of the ids / flags / context must tell the same story as
+// CopyBytesTo + flags() (which show_ctx prints).  Returns "" or " ACC:<accessor>" (never printed by the model).
+static std::string acc_check(const trace_api::SpanContext &sc)
+{
+  uint8_t tid[16], sid[8], fb[1] = {0x5a};
+  sc.trace_id().CopyBytesTo(nostd::span<uint8_t, 16>(tid, 16));
+  sc.span_id().CopyBytesTo(nostd::span<uint8_t, 8>(sid, 8));
+  const uint8_t fl = sc.trace_flags().flags();
+  std::string bad;
+  auto chk = [&](bool ok, const char *what) {
+    if (!ok) bad += std::string(" ACC:") + what;
+  };
+  auto tspan = sc.trace_id().Id();
+  auto sspan = sc.span_id().Id();
+  chk(tspan.size() == 16 && memcmp(tspan.data(), tid, 16) == 0, "TraceId::Id");
+  chk(sspan.size() == 8 && memcmp(sspan.data(), sid, 8) == 0, "SpanId::Id");
+  sc.trace_flags().CopyBytesTo(nostd::span<uint8_t, 1>(fb, 1));
+  chk(fb[0] == fl, "TraceFlags::CopyBytesTo");
+  chk(sc.trace_flags().IsSampled() == ((fl & 1) != 0), "TraceFlags::IsSampled");
+  chk(sc.trace_flags().IsRandom() == ((fl & 2) != 0), "TraceFlags::IsRandom");
+  chk(sc.IsSampled() == ((fl & 1) != 0), "SpanContext::IsSampled");
+  // lower-case base16 of each part
+  char th[32], sh[16], fh[2];
+  sc.trace_id().ToLowerBase16(nostd::span<char, 32>(th, 32));
+  sc.span_id().ToLowerBase16(nostd::span<char, 16>(sh, 16));
+  sc.trace_flags().ToLowerBase16(nostd::span<char, 2>(fh, 2));
+  chk(std::string(th, 32) == vh::to_hex(reinterpret_cast<char *>(tid), 16), "TraceId::ToLowerBase16");
+  chk(std::string(sh, 16) == vh::to_hex(reinterpret_cast<char *>(sid), 8), "SpanId::ToLowerBase16");
+  chk(std::string(fh, 2) == vh::to_hex(reinterpret_cast<const char *>(&fl), 1), "TraceFlags::ToLowerBase16");
+  // equality operators: a context rebuilt from the bytes is equal, one differing in a single bit is not
+  trace_api::TraceId t2(nostd::span<const uint8_t, 16>(tid, 16));
+  trace_api::SpanId s2(nostd::span<const uint8_t, 8>(sid, 8));
+  trace_api::TraceFlags f2(fl);
+  chk(t2 == sc.trace_id() && !(t2 != sc.trace_id()), "TraceId::operator==");
+  chk(s2 == sc.span_id() && !(s2 != sc.span_id()), "SpanId::operator==");
+  chk(f2 == sc.trace_flags() && !(f2 != sc.trace_flags()), "TraceFlags::operator==");
+  chk((trace_api::TraceFlags() == sc.trace_flags()) == (fl == 0), "TraceFlags()");
+  chk((trace_api::TraceFlags() != sc.trace_flags()) == (fl != 0), "TraceFlags::operator!=");
+  trace_api::SpanContext same(t2, s2, f2, !sc.IsRemote());
+  chk(same == sc && sc == same, "SpanContext::operator==");
+  uint8_t sid3[8], tid3[16];
+  memcpy(sid3, sid, 8);
+  memcpy(tid3, tid, 16);
+  sid3[7] ^= 1;
+  tid3[0] ^= 0x80;
+  trace_api::SpanId s3(nostd::span<const uint8_t, 8>(sid3, 8));
+  trace_api::TraceId t3(nostd::span<const uint8_t, 16>(tid3, 16));
+  chk(s3 != sc.span_id() && !(s3 == sc.span_id()), "SpanId::operator!=");
+  chk(t3 != sc.trace_id() && !(t3 == sc.trace_id()), "TraceId::operator!=");
+  chk(!(trace_api::SpanContext(t2, s3, f2, sc.IsRemote()) == sc), "SpanContext::operator==/span");
+  chk(!(trace_api::SpanContext(t3, s2, f2, sc.IsRemote()) == sc), "SpanContext::operator==/trace");
+  chk(!(trace_api::SpanContext(t2, s2, trace_api::TraceFlags(static_cast<uint8_t>(fl ^ 0x10)), sc.IsRemote()) == sc),
+      "SpanContext::operator==/flags");
+  // Empty() of the trace state agrees with the enumeration, and Get(key) answers the (first) listed value of every key
+  chk(sc.trace_state()->Empty() == (show_entries(*sc.trace_state()) == "[]"), "TraceState::Empty");
+  std::vector<std::pair<std::string, std::string>> ents;
+  sc.trace_state()->GetAllEntries([&](nostd::string_view k, nostd::string_view v) {
+    ents.emplace_back(std::string(k.data(), k.size()), std::string(v.data(), v.size()));
+    return true;
+  });
+  for (size_t i = 0; i < ents.size(); i++)
+  {
+    bool first = true;
+    for (size_t j = 0; j < i; j++) first = first && ents[j].first != ents[i].first;
+    if (!first) continue;
+    vh::Exact k(ents[i].first);
+    std::string val = "stale";
+    bool ok         = sc.trace_state()->Get(nostd::string_view(k.data(), k.size()), val);
+    chk(ok && val == ents[i].second, "TraceState::Get");
+  }
+  return bad;
+}
+
 static std::string show_ctx(const trace_api::SpanContext &sc)
 {
   char tid[16], sid[8];
@@ -55,31 +128,59 @@ static std::string show_ctx(const trace_api::SpanContext &sc)
   sc.span_id().CopyBytesTo(nostd::span<uint8_t, 8>(reinterpret_cast<uint8_t *>(sid), 8));
   char fl = static_cast<char>(sc.trace_flags().flags());
   return "tid=" + vh::to_hex(tid, 16) + " sid=" + vh::to_hex(sid, 8) + " fl=" + vh::to_hex(&fl, 1) +
-         " remote=" + (sc.IsRemote() ? "1" : "0") + " ts=" + show_entries(*sc.trace_state());
+         " remote=" + (sc.IsRemote() ? "1" : "0") + " ts=" + show_entries(*sc.trace_state()) + acc_check(sc);
 }
 
 static std::string handle_tc(const std::vector<std::string> &t)
 {
   trace_api::propagation::HttpTraceContext prop;
-  if (t.size() == 6 && (t[1] == "inject" || t[1] == "roundtrip"))
+  const bool by_set = t.size() == 6 && (t[1] == "injects" || t[1] == "roundtrips");
+  if (t.size() == 6 && (t[1] == "inject" || t[1] == "roundtrip" || by_set))
   {
     std::string tid, sid, fl, ts;
     if (!vh::from_hex(t[2], tid) || !vh::from_hex(t[3], sid) || !vh::from_hex(t[4], fl) ||
         !vh::from_hex(t[5], ts) || tid.size() != 16 || sid.size() != 8 || fl.size() != 1)
       return "bad-op";
     vh::Exact tsx(ts);
-    auto state = trace_api::TraceState::FromHeader(nostd::string_view(tsx.data(), tsx.size()));
-    trace_api::SpanContext sc(
-        trace_api::TraceId(nostd::span<const uint8_t, 16>(reinterpret_cast<const uint8_t *>(tid.data()), 16)),
-        trace_api::SpanId(nostd::span<const uint8_t, 8>(reinterpret_cast<const uint8_t *>(sid.data()), 8)),
-        trace_api::TraceFlags(static_cast<uint8_t>(fl[0])), false, state);
+    nostd::shared_ptr<trace_api::TraceState> state;
+    if (!by_set)
+      state = trace_api::TraceState::FromHeader(nostd::string_view(tsx.data(), tsx.size()));
+    else
+    {
+      // the same list built member by member with Set, last member first (Set places the new member first);
+      // the caller's key / value buffers are released right after each call
+      std::vector<std::pair<std::string, std::string>> mem;
+      size_t b = 0;
+      while (b <= ts.size() && !ts.empty())
+      {
+        size_t e = ts.find(',', b);
+        if (e == std::string::npos) e = ts.size();
+        std::string m = ts.substr(b, e - b);
+        size_t q      = m.find('=');
+        if (q == std::string::npos) return "bad-op";
+        mem.emplace_back(m.substr(0, q), m.substr(q + 1));
+        b = e + 1;
+      }
+      state = trace_api::TraceState::GetDefault();
+      for (size_t j = mem.size(); j-- > 0;)
+      {
+        vh::Exact k(mem[j].first), v(mem[j].second);
+        state = state->Set(nostd::string_view(k.data(), k.size()), nostd::string_view(v.data(), v.size()));
+      }
+    }
+    const trace_api::TraceId the_tid(nostd::span<const uint8_t, 16>(reinterpret_cast<const uint8_t *>(tid.data()), 16));
+    const trace_api::SpanId the_sid(nostd::span<const uint8_t, 8>(reinterpret_cast<const uint8_t *>(sid.data()), 8));
+    const trace_api::TraceFlags the_fl(static_cast<uint8_t>(fl[0]));
+    // `injects` with an empty list: the constructor's defaulted trace-state argument
+    trace_api::SpanContext sc = (by_set && ts.empty()) ? trace_api::SpanContext(the_tid, the_sid, the_fl, false)
+                                                       : trace_api::SpanContext(the_tid, the_sid, the_fl, false, state);
     nostd::shared_ptr<trace_api::Span> sp{new trace_api::DefaultSpan(sc)};
     context::Context ctx;
     ctx = trace_api::SetSpan(ctx, sp);
     ExactCarrier c;
     prop.Inject(c, ctx);
     if (c.out_.empty()) return "none";
-    if (t[1] == "roundtrip")
+    if (t[1] == "roundtrip" || t[1] == "roundtrips")
     {
       // feed exactly what was injected into a fresh carrier (exact-size blocks) and extract
       ExactCarrier c2;
@@ -94,6 +195,121 @@ static std::string handle_tc(const std::vector<std::string> &t)
     for (auto &kv : c.out_)
       if (kv.first != "traceparent" && kv.first != "tracestate") r += " extra=" + vh::to_hex(kv.first);
     return r;
+  }
+  if (t.size() == 2 && t[1] == "inject0")
+  {
+    // a context that holds no span at all: GetSpan yields the invalid default span, nothing may be written
+    context::Context ctx;
+    ctx = ctx.SetValue("marker", static_cast<int64_t>(77));
+    ExactCarrier c;
+    prop.Inject(c, ctx);
+    if (c.out_.empty()) return "none";
+    std::string r = "wrote";
+    for (auto &kv : c.out_) r += " " + vh::to_hex(kv.first) + "=" + vh::to_hex(kv.second);
+    return r;
+  }
+  if (t.size() == 3 && t[1] == "fields")
+  {
+    // Fields(): the header names this propagator reads / writes; <n> = the callback answers false on its n-th call
+    char *e  = nullptr;
+    size_t n = strtoul(t[2].c_str(), &e, 10);
+    if (*e != 0 || t[2].empty()) return "bad-op";
+    std::vector<std::string> seen;
+    size_t calls = 0;
+    const context::propagation::TextMapPropagator &base = prop;
+    bool r = base.Fields([&](nostd::string_view f) {
+      seen.push_back(vh::to_hex(f.data(), f.size()));
+      return ++calls != n;
+    });
+    return "f=[" + vh::join(seen, ",") + "] r=" + (r ? "1" : "0");
+  }
+  if (t.size() == 4 && t[1] == "idhex" && (t[2] == "t" || t[2] == "s" || t[2] == "f"))
+  {
+    // the public static helpers TraceIdFromHex / SpanIdFromHex / TraceFlagsFromHex on an exact-size buffer
+    std::string h;
+    if (!vh::from_hex(t[3], h)) return "bad-op";
+    vh::Exact x(h);
+    nostd::string_view sv(x.data(), x.size());
+    using P = trace_api::propagation::HttpTraceContext;
+    if (t[2] == "t")
+    {
+      char b[16];
+      P::TraceIdFromHex(sv).CopyBytesTo(nostd::span<uint8_t, 16>(reinterpret_cast<uint8_t *>(b), 16));
+      return "id=" + vh::to_hex(b, 16);
+    }
+    if (t[2] == "s")
+    {
+      char b[8];
+      P::SpanIdFromHex(sv).CopyBytesTo(nostd::span<uint8_t, 8>(reinterpret_cast<uint8_t *>(b), 8));
+      return "id=" + vh::to_hex(b, 8);
+    }
+    char b = static_cast<char>(P::TraceFlagsFromHex(sv).flags());
+    return "id=" + vh::to_hex(&b, 1);
+  }
+  if (t.size() == 4 && t[1] == "hex2bin")
+  {
+    // detail::HexToBinary into an exact-size heap buffer pre-filled with 0xaa
+    char *e  = nullptr;
+    size_t n = strtoul(t[2].c_str(), &e, 10);
+    std::string h;
+    if (*e != 0 || t[2].empty() || n > 64 || !vh::from_hex(t[3], h)) return "bad-op";
+    vh::Exact x(h);
+    std::unique_ptr<uint8_t[]> buf(new uint8_t[n ? n : 1]);
+    memset(buf.get(), 0xaa, n ? n : 1);
+    bool r = trace_api::propagation::detail::HexToBinary(nostd::string_view(x.data(), x.size()), buf.get(), n);
+    return std::string("r=") + (r ? "1" : "0") + " buf=" + vh::to_hex(reinterpret_cast<char *>(buf.get()), n);
+  }
+  if (t.size() == 3 && t[1] == "ishex")
+  {
+    std::string h;
+    if (!vh::from_hex(t[2], h)) return "bad-op";
+    vh::Exact x(h);
+    return trace_api::propagation::detail::IsValidHex(nostd::string_view(x.data(), x.size())) ? "1" : "0";
+  }
+  if (t.size() == 5 && t[1] == "split")
+  {
+    // detail::SplitString into an array of exactly <count> views (heap, so writing a (count+1)-th is an ASan report)
+    std::string sep, h;
+    char *e  = nullptr;
+    size_t n = strtoul(t[3].c_str(), &e, 10);
+    if (*e != 0 || t[3].empty() || n > 64 || !vh::from_hex(t[2], sep) || sep.size() != 1 || !vh::from_hex(t[4], h))
+      return "bad-op";
+    vh::Exact x(h);
+    std::unique_ptr<nostd::string_view[]> res(new nostd::string_view[n]);
+    size_t k = trace_api::propagation::detail::SplitString(nostd::string_view(x.data(), x.size()), sep[0], res.get(), n);
+    if (k > n) return "ERR split-count " + std::to_string(k);
+    std::vector<std::string> toks;
+    for (size_t i = 0; i < k; i++) toks.push_back(vh::to_hex(res[i].data(), res[i].size()));
+    return "n=" + std::to_string(k) + " [" + vh::join(toks, ",") + "]";
+  }
+  if (t.size() == 4 && t[1] == "extractp")
+  {
+    // the caller's context already holds a (valid, local) span: a rejected header must leave exactly that span in
+    // place, an accepted one must replace it in the returned context only
+    std::string tp, ts;
+    if (!vh::from_hex(t[2], tp) || !vh::from_hex(t[3], ts)) return "bad-op";
+    ExactCarrier c;
+    if (t[2] != "-") c.Put("traceparent", tp);
+    if (t[3] != "-") c.Put("tracestate", ts);
+    uint8_t ptid[16], psid[8];
+    memset(ptid, 0x11, 16);
+    memset(psid, 0x22, 8);
+    const trace_api::SpanContext prior(trace_api::TraceId(nostd::span<const uint8_t, 16>(ptid, 16)),
+                                       trace_api::SpanId(nostd::span<const uint8_t, 8>(psid, 8)),
+                                       trace_api::TraceFlags(1), false);
+    context::Context ctx;
+    ctx = ctx.SetValue("marker", static_cast<int64_t>(77));
+    ctx = trace_api::SetSpan(ctx, nostd::shared_ptr<trace_api::Span>(new trace_api::DefaultSpan(prior)));
+    auto out  = prop.Extract(c, ctx);
+    bool same = (out == ctx);
+    auto now  = trace_api::GetSpan(ctx)->GetContext();
+    if (!(now == prior) || now.IsRemote()) return "ERR caller-context-mutated " + show_ctx(now);
+    auto sc = trace_api::GetSpan(out)->GetContext();
+    auto mk = out.GetValue("marker");
+    if (!nostd::holds_alternative<int64_t>(mk) || nostd::get<int64_t>(mk) != 77) return "ERR marker-lost";
+    if (same) return "none";
+    if (!sc.IsValid()) return "installed-invalid " + show_ctx(sc);
+    return show_ctx(sc);
   }
   if (t.size() == 4 && t[1] == "extract")
   {
@@ -182,6 +398,136 @@ static std::string handle_ts(const std::vector<std::string> &t)
     {
       vh::Exact k(a);
       o = trace_api::TraceState::IsValidValue(nostd::string_view(k.data(), k.size())) ? "1" : "0";
+    }
+    else if (op.size() == 2 && op[0] == "emp" && idx(op[1], i))
+    {
+      o = states[i]->Empty() ? "1" : "0";
+    }
+    else if (op.size() == 3 && op[0] == "ents" && idx(op[1], i))
+    {
+      // GetAllEntries with a callback that declines on its n-th call (0 = never)
+      char *e  = nullptr;
+      size_t n = strtoul(op[2].c_str(), &e, 10), calls = 0;
+      if (*e == 0 && !op[2].empty())
+      {
+        std::vector<std::string> seen;
+        bool r = states[i]->GetAllEntries([&](nostd::string_view k, nostd::string_view v) {
+          seen.push_back(vh::to_hex(k.data(), k.size()) + ":" + vh::to_hex(v.data(), v.size()));
+          return ++calls != n;
+        });
+        o = std::string("r=") + (r ? "1" : "0") + " [" + vh::join(seen, ",") + "]";
+      }
+    }
+    else if (op.size() == 5 && op[0] == "tok" && vh::from_hex(op[1], a) && vh::from_hex(op[2], b) && a.size() == 1 &&
+             b.size() == 1 && (op[3] == "0" || op[3] == "1"))
+    {
+      // the tokenizer itself, with explicit options: NumTokens, every next(), then reset() and every next() again
+      std::string h;
+      if (vh::from_hex(op[4], h))
+      {
+        vh::Exact x(h);
+        opentelemetry::common::KeyValueStringTokenizerOptions opts;
+        opts.member_separator     = a[0];
+        opts.key_value_separator  = b[0];
+        opts.ignore_empty_members = op[3] == "1";
+        opentelemetry::common::KeyValueStringTokenizer tk(nostd::string_view(x.data(), x.size()), opts);
+        auto pass = [&]() {
+          std::vector<std::string> toks;
+          bool valid;
+          nostd::string_view k, v;
+          size_t guard = 0;
+          while (tk.next(valid, k, v) && guard++ < 100000)
+            toks.push_back(valid ? vh::to_hex(k.data(), k.size()) + ":" + vh::to_hex(v.data(), v.size()) : std::string("!"));
+          return vh::join(toks, ",");
+        };
+        size_t cnt        = tk.NumTokens();
+        std::string first = pass();
+        tk.reset();
+        std::string again = pass();
+        o = "n=" + std::to_string(cnt) + " t=[" + first + "]" + (again == first ? "" : " RESET-DIFF[" + again + "]");
+      }
+    }
+    else if (op.size() >= 2 && op.size() % 2 == 0 && op[0] == "kvp")
+    {
+      // KeyValueProperties(capacity) directly: AddEntry beyond the capacity is dropped; owned copies; GetValue;
+      // Entry copy / assignment / SetValue; the constructor from a key-value iterable when everything fits
+      char *e    = nullptr;
+      size_t cap = strtoul(op[1].c_str(), &e, 10);
+      std::vector<std::pair<std::string, std::string>> kv;
+      bool ok = *e == 0 && !op[1].empty() && cap <= 64;
+      for (size_t j = 2; ok && j + 1 < op.size(); j += 2)
+      {
+        ok = vh::from_hex(op[j], a) && vh::from_hex(op[j + 1], b);
+        kv.emplace_back(a, b);
+      }
+      if (ok)
+      {
+        namespace common = opentelemetry::common;
+        common::KeyValueProperties props(cap);
+        for (auto &p : kv)
+        {
+          vh::Exact k(p.first), v(p.second);
+          props.AddEntry(nostd::string_view(k.data(), k.size()), nostd::string_view(v.data(), v.size()));
+        }
+        auto list = [](const common::KeyValueProperties &q) {
+          std::vector<std::string> seen;
+          q.GetAllEntries([&](nostd::string_view k, nostd::string_view v) {
+            seen.push_back(vh::to_hex(k.data(), k.size()) + ":" + vh::to_hex(v.data(), v.size()));
+            return true;
+          });
+          return "[" + vh::join(seen, ",") + "]";
+        };
+        o = "s=" + std::to_string(props.Size()) + " " + list(props);
+        // GetValue: the first stored entry with that key (keys / values are stored NUL-terminated: compare up to a NUL)
+        for (size_t j = 0; j < kv.size(); j++)
+        {
+          std::string want;
+          bool found = false;
+          for (size_t q = 0; q < kv.size() && q < cap && !found; q++)
+            if (std::string(kv[q].first.c_str()) == std::string(kv[j].first.c_str()))
+            {
+              found = true;
+              want  = kv[q].second.c_str();
+            }
+          if (kv[j].first.find('\0') != std::string::npos) continue;
+          vh::Exact k(kv[j].first);
+          std::string val = "stale";
+          bool got        = props.GetValue(nostd::string_view(k.data(), k.size()), val);
+          if (got != found || (got && val != want)) o += " GETVALUE-DIFF" + std::to_string(j);
+        }
+        // Entry: copies are deep, SetValue touches only its own entry
+        if (!kv.empty())
+        {
+          common::KeyValueProperties::Entry e1(kv[0].first.c_str(), kv[0].second.c_str());
+          common::KeyValueProperties::Entry e2(e1);
+          common::KeyValueProperties::Entry e3;
+          e3 = e1;
+          e2.SetValue("changed-2");
+          e3.SetValue("changed-3");
+          if (e1.GetKey() != e2.GetKey() || e1.GetKey() != e3.GetKey() || e1.GetValue() != nostd::string_view(kv[0].second.c_str()) ||
+              e2.GetValue() != "changed-2" || e3.GetValue() != "changed-3" || e1.GetKey().data() == e2.GetKey().data() ||
+              e1.GetKey().data() == e3.GetKey().data())
+            o += " ENTRY-COPY-DIFF";
+        }
+        // from an iterable of pairs (capacity = its size): the same list as AddEntry one by one
+        if (cap == kv.size())
+        {
+          std::vector<std::unique_ptr<vh::Exact>> keep;
+          std::vector<std::pair<nostd::string_view, nostd::string_view>> views;
+          for (auto &p : kv)
+          {
+            keep.emplace_back(new vh::Exact(p.first));
+            auto *k = keep.back().get();
+            keep.emplace_back(new vh::Exact(p.second));
+            auto *v = keep.back().get();
+            views.emplace_back(nostd::string_view(k->data(), k->size()), nostd::string_view(v->data(), v->size()));
+          }
+          std::unique_ptr<common::KeyValueProperties> q(new common::KeyValueProperties(views));
+          keep.clear();
+          views.clear();
+          if (q->Size() != props.Size() || list(*q) != list(props)) o += " ITERABLE-CTOR-DIFF" + list(*q);
+        }
+      }
     }
     // "the original object is never modified": every earlier state must still print as it did
     for (size_t j = 0; j < states.size(); j++)
